@@ -94,6 +94,21 @@ class Session:
 def judge(sess, res, rep, what, expect_possible):
     """after the exchange: anybody established or holding SAs must have accepted a valid AUTH over its own view"""
     w = sess.w
+    # when BOTH ends are established, the IKE_SA_INIT messages they authenticated are the same octets at both ends: what the
+    # initiator sent last is what the responder received, and vice versa
+    both = all(any(10 <= int(s.state) < 21 for s in ep.sas()) for ep in (w.A, w.B))
+    if both:
+        a_req = [d for d in sess.sent_by['A'] if len(d) > 28 and d[18] == 34]
+        b_req = [d for d in sess.received['B'] if len(d) > 28 and d[18] == 34]
+        b_res = [d for d in sess.sent_by['B'] if len(d) > 28 and d[18] == 34]
+        a_res = [d for d in sess.received['A'] if len(d) > 28 and d[18] == 34 and (d[19] & 0x20)]
+        if a_req and b_req and a_req[-1] not in b_req:
+            res.fail('established-on-different-ike-sa-init:request', 'both ends are established although the IKE_SA_INIT request the initiator '
+                     'sent last (%d octets) is not what the responder received (%s): a change in flight went undetected (%s)'
+                     % (len(a_req[-1]), [len(x) for x in b_req], what), rep)
+        if b_res and a_res and b_res[-1] not in a_res:
+            res.fail('established-on-different-ike-sa-init:response', 'both ends are established although the IKE_SA_INIT response the responder '
+                     'sent is not what the initiator received (%s)' % what, rep)
     for name, ep in (('A', w.A), ('B', w.B)):
         est = [s for s in ep.sas() if int(s.state) >= 10 and int(s.state) < 21]
         installed = [r for r in ep.kernel.log if r['op'] == 'NEWSA' and not r['err']]
@@ -333,6 +348,78 @@ def run(ctx):
                 res.fail('established-without-auth-exchange:' + first_exch,
                          'a peer that never sent IKE_AUTH got %s out of the responder: states %s, %d SA(s) installed'
                          % (first_exch, [s.state.name for s in b.sas()], len([r for r in b.kernel.log if r['op'] == 'NEWSA'])), rep)
+        finally:
+            sess.close()
+    # (4) a forged COOKIE challenge makes the initiator send a second request; the attacker strips the cookie again in flight
+    for rsa in (False, True):
+        seed = rng.randrange(1 << 30)
+        ca, cb = W.default_conf(rsa=rsa)
+        sess = Session(seed, ca, cb)
+        try:
+            m0 = sess.start()
+            q = M.Message.parse(m0)
+            cookie = M.PayloadNOTIFY(M.Proposal.Protocol.NONE, M.PayloadNOTIFY.Type.COOKIE, b'', rng.rbytes(32))
+            forged = M.Message(spi_i=q.spi_i, spi_r=b'\0' * 8, major=2, minor=0, exchange_type=M.Message.Exchange.IKE_SA_INIT, is_response=True,
+                               can_use_higher_version=False, is_initiator=False, message_id=0, payloads=[cookie], encrypted_payloads=[], crypto=None)
+            m0c = sess.send(bytes(forged.to_bytes()), 'A')           # the initiator repeats its request with the cookie
+            cur = None
+            if m0c is not None:
+                q2 = M.Message.parse(m0c)
+                q2.payloads = [p for p in q2.payloads if not (p.type == M.Payload.Type.NOTIFY and p.notification_type == M.PayloadNOTIFY.Type.COOKIE)]
+                cur = sess.send(bytes(q2.to_bytes()), 'B')           # ... which the responder never sees
+            for to in ('A', 'B', 'A'):
+                if cur is None:
+                    break
+                cur = sess.send(cur, to)
+            res.evaluations += 1
+            res.nontrivial.add(('cookie-strip', rsa))
+            res.count('mitm:cookie-injected-and-stripped')
+            rep = {'seed': seed, 'scenario': 'mitm-cookie', 'rsa': rsa}
+            judge(sess, res, rep, 'mitm:cookie challenge forged towards the initiator and stripped towards the responder', True)
+        finally:
+            sess.close()
+    # (5) a peer that holds the SK_* keys but no credential talks to an INITIATOR that is still waiting for the IKE_AUTH response
+    for first_exch in ('create-child', 'informational', 'ike-rekey'):
+        seed = rng.randrange(1 << 30)
+        ca, cb = W.default_conf()
+        sess = Session(seed, ca, cb)
+        try:
+            m0 = sess.start()
+            m1 = sess.send(m0, 'B')
+            sess.send(m1, 'A')                     # A: AUTH_REQ_SENT; its IKE_AUTH request is swallowed by the attacker (B's place)
+            a = sess.w.A.sas()[0] if sess.w.A.sas() else None
+            bsa = sess.w.B.sas()[0] if sess.w.B.sas() else None
+            if a is None or bsa is None or int(a.state) != 3:
+                continue
+            import rogue as RG
+            pup = RG.Puppet(sess.h, rng)
+            pol = pup.a_policy()
+            if first_exch == 'create-child':
+                props, _ = pup.child_proposal(variant='same')
+                pl = [M.PayloadTSi([pol.peer_ts]), M.PayloadTSr([pol.my_ts]), M.PayloadSA(props), M.PayloadNONCE()]
+                if int(pol.mode) == 0:
+                    pl.append(M.PayloadNOTIFY(M.Proposal.Protocol.NONE, M.PayloadNOTIFY.Type.USE_TRANSPORT_MODE))
+                exch = M.Message.Exchange.CREATE_CHILD_SA
+            elif first_exch == 'informational':
+                pl, exch = [], M.Message.Exchange.INFORMATIONAL
+            else:
+                conf = pup.a_conf()
+                dh = next(t.id for t in conf.proposal.transforms if t.type == M.Transform.Type.DH)
+                pl = [M.PayloadSA([M.Proposal(1, M.Proposal.Protocol.IKE, rng.rbytes(8), list(conf.proposal.transforms))]), M.PayloadNONCE(),
+                      M.PayloadKE(dh, pup.dh_pub(dh))]
+                exch = M.Message.Exchange.CREATE_CHILD_SA
+            data = RG.protected(bsa, exch, pl, a.peer_msg_id, False)
+            sess.send(bytes(data), 'A')
+            res.evaluations += 1
+            res.nontrivial.add(('unauthenticated-responder', first_exch))
+            res.count('rogue-responder:' + first_exch)
+            rep = {'seed': seed, 'scenario': 'keys-but-no-auth-towards-initiator', 'variant': first_exch}
+            aep = sess.w.A
+            inst = [r for r in aep.kernel.log if r['op'] == 'NEWSA' and not r['err']]
+            if inst or any(10 <= int(s.state) < 21 for s in aep.sas()) or any(s.child_sas for s in aep.sas()):
+                res.fail('established-without-auth-exchange:initiator-' + first_exch,
+                         'an initiator still waiting for the IKE_AUTH response served a %s request of the unauthenticated peer: states %s, '
+                         '%d SA(s) installed' % (first_exch, [s.state.name for s in aep.sas()], len(inst)), rep)
         finally:
             sess.close()
     return res
